@@ -67,12 +67,18 @@ func failFilePattern(testName string) string {
 }
 
 func saveFailFile(filename string, version string, output []byte, seed uint64, buf []uint64) error {
+	if verifOn {
+		verifAt("save.mkdir")
+	}
 	dir := filepath.Dir(filename)
 	err := os.MkdirAll(dir, persistDirMode)
 	if err != nil {
 		return fmt.Errorf("failed to create directory for fail file %q: %w", filename, err)
 	}
 
+	if verifOn {
+		verifAt("save.create")
+	}
 	f, err := os.CreateTemp(dir, failfileTmpPattern)
 	if err != nil {
 		return fmt.Errorf("failed to create temporary file for fail file %q: %w", filename, err)
@@ -82,6 +88,9 @@ func saveFailFile(filename string, version string, output []byte, seed uint64, b
 
 	out := strings.Split(string(output), "\n")
 	for _, s := range out {
+		if verifOn {
+			verifAt("save.write")
+		}
 		_, err := f.WriteString("# " + s + "\n")
 		if err != nil {
 			return fmt.Errorf("failed to write data to fail file %q: %w", filename, err)
@@ -93,15 +102,27 @@ func saveFailFile(filename string, version string, output []byte, seed uint64, b
 		bs = append(bs, fmt.Sprintf("0x%x", u))
 	}
 
+	if verifOn {
+		verifAt("save.write")
+	}
 	_, err = f.WriteString(strings.Join(bs, "\n"))
 	if err != nil {
 		return fmt.Errorf("failed to write data to fail file %q: %w", filename, err)
 	}
 
+	if verifOn {
+		verifAt("save.close")
+	}
 	_ = f.Close() // early close, otherwise os.Rename will fail on Windows
+	if verifOn {
+		verifAt("save.rename")
+	}
 	err = os.Rename(f.Name(), filename)
 	if err != nil {
 		return fmt.Errorf("failed to save fail file %q: %w", filename, err)
+	}
+	if verifOn {
+		verifAt("save.done")
 	}
 
 	return nil
